@@ -1,2 +1,303 @@
+//! C07 — Fresh blinding (form B): all histories of generating operations x thread placements, invariant on every state;
+//! plus 64-fold repetition and cross-process runs. Transitions draw real randomness, so a state is its history plus
+//! the artefacts that history produced (kept in memory); the history list is the replay artefact.
+#![allow(non_snake_case)]
 use crate::common::*;
-pub fn run(_env: &Env) {}
+use bls12_381_plus::Scalar;
+use mccore::{par_for, tuples, O};
+use refbbs::Suite;
+use serde_json::{json, Value};
+use std::sync::{Arc, Barrier};
+
+pub const OPS: [&str; 8] = ["proof_gen(D=none)", "proof_gen(D=all)", "blind_proof_gen", "commit(M=0)", "commit(M=2)", "BlindFactor::random", "KeyPair::random", "generate_random_secret(32)"];
+
+#[derive(Clone, Default)]
+pub struct Obs {
+    /// (label, scalar): blinding scalars recomputed with the witness, responses, challenges, secrets
+    pub scalars: Vec<(String, [u8; 32])>,
+    pub points: Vec<(String, Vec<u8>)>,
+    /// (label, encoded artefact, forbidden windows)
+    pub windows: Vec<(String, Vec<u8>, Vec<(String, Vec<u8>)>)>,
+    /// transcripts for two-transcript extraction: (witness id, challenge, [(slot, response, secret)])
+    pub transcripts: Vec<(String, [u8; 32], Vec<(String, [u8; 32], [u8; 32])>)>,
+    pub errors: Vec<String>,
+}
+
+fn sc(b: &[u8; 32]) -> Scalar { Scalar::from_be_bytes(b).unwrap() }
+
+struct Fixed { key: Key, msgs: Vec<Vec<u8>>, sig: Vec<u8>, bmsgs: Vec<Vec<u8>>, bcms: Vec<Vec<u8>>, bblind: [u8; 32], bsig: Vec<u8>, header: Vec<u8> }
+
+fn fixed(s: Suite) -> Fixed {
+    // fixed inputs shared by every execution. The blind signature needs one commitment; it is made once per process
+    // with the reference (deterministic scalars), so that no production randomness is consumed by the set-up.
+    let k = key(s, "k0");
+    let header = b"c07-header".to_vec();
+    let msgs = vec![b"hidden-0".to_vec(), b"hidden-1".to_vec()];
+    let pk96: [u8; 96] = k.pk.clone().try_into().unwrap();
+    let sk = refbbs::octets_to_scalar_strict(&k.sk).unwrap();
+    let sig = refbbs::sign(s, &sk, &pk96, &header, &msgs).unwrap().to_vec();
+    let bmsgs = vec![b"signer-0".to_vec()];
+    let bcms = vec![b"committed-0".to_vec()];
+    let rnd: Vec<Scalar> = (0..3).map(|i| refbbs::random_scalar_from(b"c07", b"setup", i)).collect();
+    let (cwp, blind) = refbbs::commit(s, &bcms, &rnd).unwrap();
+    let bsig = refbbs::blind_sign(s, &sk, &pk96, &cwp, &header, &bmsgs).unwrap().to_vec();
+    Fixed { key: k, msgs, sig, bmsgs, bcms, bblind: blind.to_be_bytes(), bsig, header }
+}
+
+fn proof_obs(o: &mut Obs, label: &str, s: Suite, iface_blind: bool, proof: &[u8], e: &Scalar, A: &[u8], hidden: &[(usize, Scalar)], witness: &str) {
+    let p = match refbbs::octets_to_proof(proof) { Ok(p) => p, Err(er) => { o.errors.push(format!("{}: proof does not decode: {}", label, er)); return; } };
+    let _ = (s, iface_blind);
+    o.points.push((format!("{label}.Abar"), refbbs::g1_bytes(&p.Abar).to_vec()));
+    o.points.push((format!("{label}.Bbar"), refbbs::g1_bytes(&p.Bbar).to_vec()));
+    o.points.push((format!("{label}.D"), refbbs::g1_bytes(&p.D).to_vec()));
+    let c = p.c;
+    o.scalars.push((format!("{label}.challenge"), c.to_be_bytes()));
+    o.scalars.push((format!("{label}.e~ = e^ - e*c"), (p.e_hat - e * c).to_be_bytes()));
+    o.scalars.push((format!("{label}.e^"), p.e_hat.to_be_bytes()));
+    o.scalars.push((format!("{label}.r1^"), p.r1_hat.to_be_bytes()));
+    o.scalars.push((format!("{label}.r3^"), p.r3_hat.to_be_bytes()));
+    let mut slots = vec![("e".to_string(), p.e_hat.to_be_bytes(), e.to_be_bytes())];
+    let mut wins: Vec<(String, Vec<u8>)> = vec![("e (be)".into(), e.to_be_bytes().to_vec()), ("e (le)".into(), e.to_le_bytes().to_vec()), ("A".into(), A.to_vec())];
+    for (j, (pos, m)) in hidden.iter().enumerate() {
+        if j >= p.m_hat.len() { o.errors.push(format!("{}: fewer m^ than hidden messages", label)); break; }
+        o.scalars.push((format!("{label}.m~_{pos} = m^ - m*c"), (p.m_hat[j] - m * c).to_be_bytes()));
+        o.scalars.push((format!("{label}.m^_{pos}"), p.m_hat[j].to_be_bytes()));
+        slots.push((format!("m_{pos}"), p.m_hat[j].to_be_bytes(), m.to_be_bytes()));
+        wins.push((format!("hidden scalar {pos} (be)"), m.to_be_bytes().to_vec()));
+        wins.push((format!("hidden scalar {pos} (le)"), m.to_le_bytes().to_vec()));
+    }
+    o.windows.push((label.to_string(), proof.to_vec(), wins));
+    o.transcripts.push((witness.to_string(), c.to_be_bytes(), slots));
+}
+
+/// Execute one generating operation on the REAL code with fixed inputs and report everything a party who knows
+/// the witness can compute from the output.
+pub fn run_op(s: Suite, op: usize, label: &str) -> Obs {
+    let zk = z(s);
+    let f = fixed(s);
+    let k = &f.key;
+    let mut o = Obs::default();
+    let (Ab, e) = refbbs::octets_to_signature(&f.sig).map(|(a, e)| (refbbs::g1_bytes(&a).to_vec(), e)).unwrap();
+    let api = s.api_id();
+    let bapi = s.api_id_blind();
+    match op {
+        0 | 1 => {
+            let d: Vec<usize> = if op == 0 { vec![] } else { vec![0, 1] };
+            match zk.proof_gen(&k.pk, &f.sig, Some(&f.header), Some(b"ph"), Some(&f.msgs), Some(&d)) {
+                O::Ok(p) => {
+                    let ms = refbbs::messages_to_scalars(s, &f.msgs, &api).unwrap();
+                    let hidden: Vec<(usize, Scalar)> = (0..2).filter(|i| !d.contains(i)).map(|i| (i, ms[i])).collect();
+                    proof_obs(&mut o, label, s, false, &p, &e, &Ab, &hidden, &format!("plain-sig/D={:?}", d));
+                }
+                other => o.errors.push(format!("{}: {}", label, other.describe())),
+            }
+        }
+        2 => {
+            let (bAb, be) = refbbs::octets_to_signature(&f.bsig).map(|(a, e)| (refbbs::g1_bytes(&a).to_vec(), e)).unwrap();
+            match zk.blind_proof_gen(&k.pk, &f.bsig, Some(&f.header), Some(b"ph"), Some(&f.bmsgs), Some(&f.bcms), Some(&[]), Some(&[]), Some(&f.bblind)) {
+                O::Ok(p) => {
+                    let m0 = refbbs::messages_to_scalars(s, &f.bmsgs, &bapi).unwrap()[0];
+                    let c0 = refbbs::messages_to_scalars(s, &f.bcms, &bapi).unwrap()[0];
+                    let hidden = vec![(0usize, m0), (1, sc(&f.bblind)), (2, c0)];
+                    proof_obs(&mut o, label, s, true, &p, &be, &bAb, &hidden, "blind-sig");
+                }
+                other => o.errors.push(format!("{}: {}", label, other.describe())),
+            }
+        }
+        3 | 4 => {
+            let cms: Vec<Vec<u8>> = if op == 3 { vec![] } else { vec![b"cm-0".to_vec(), b"cm-1".to_vec()] };
+            match zk.commit(Some(&cms)) {
+                O::Ok((c, blind)) => {
+                    let m = cms.len();
+                    if c.len() != 112 + 32 * m { o.errors.push(format!("{}: commitment length {}", label, c.len())); return o; }
+                    let rd = |i: usize| -> [u8; 32] { c[48 + 32 * i..80 + 32 * i].try_into().unwrap() };
+                    let chal = sc(&rd(m + 1));
+                    let b = sc(&blind);
+                    o.points.push((format!("{label}.commitment"), c[..48].to_vec()));
+                    o.scalars.push((format!("{label}.secret_prover_blind"), blind));
+                    o.scalars.push((format!("{label}.challenge"), chal.to_be_bytes()));
+                    o.scalars.push((format!("{label}.s^"), rd(0)));
+                    o.scalars.push((format!("{label}.s~ = s^ - blind*c"), (sc(&rd(0)) - b * chal).to_be_bytes()));
+                    let ms = refbbs::messages_to_scalars(s, &cms, &bapi).unwrap();
+                    let mut slots = vec![("blind".to_string(), rd(0), blind)];
+                    let mut wins = vec![("secret_prover_blind (be)".to_string(), blind.to_vec())];
+                    for j in 0..m {
+                        o.scalars.push((format!("{label}.m^_{j}"), rd(1 + j)));
+                        o.scalars.push((format!("{label}.m~_{j} = m^ - m*c"), (sc(&rd(1 + j)) - ms[j] * chal).to_be_bytes()));
+                        slots.push((format!("cm_{j}"), rd(1 + j), ms[j].to_be_bytes()));
+                        wins.push((format!("committed scalar {j} (be)"), ms[j].to_be_bytes().to_vec()));
+                    }
+                    o.windows.push((label.to_string(), c.clone(), wins));
+                    // witness differs per run (fresh blind), so extraction across runs only applies to the message slots
+                    o.transcripts.push((format!("commit/M={}", m), chal.to_be_bytes(), slots[1..].to_vec()));
+                }
+                other => o.errors.push(format!("{}: {}", label, other.describe())),
+            }
+        }
+        5 => match zk.random_blind_factor() { O::Ok(b) => o.scalars.push((format!("{label}.blind_factor"), b)), other => o.errors.push(format!("{}: {}", label, other.describe())) },
+        6 => match zk.random_keypair() {
+            O::Ok((sk, pk)) => { o.scalars.push((format!("{label}.sk"), sk.try_into().unwrap())); o.points.push((format!("{label}.pk"), pk)); }
+            other => o.errors.push(format!("{}: {}", label, other.describe())),
+        },
+        _ => match zk.random_secret(32) {
+            O::Ok(b) => { let x = refbbs::os2ip_mod_r(&b); o.scalars.push((format!("{label}.secret mod r"), x.to_be_bytes())); o.points.push((format!("{label}.secret bytes"), b)); }
+            other => o.errors.push(format!("{}: {}", label, other.describe())),
+        },
+    }
+    o
+}
+
+fn merge(a: &mut Obs, b: Obs) {
+    a.scalars.extend(b.scalars); a.points.extend(b.points); a.windows.extend(b.windows); a.transcripts.extend(b.transcripts); a.errors.extend(b.errors);
+}
+
+fn be_gt_2_128(b: &[u8; 32]) -> bool { b[..16].iter().any(|&x| x != 0) }
+fn small_mod_r(d: &Scalar) -> bool {
+    // |d| < 2^64 as a centred residue
+    let b = d.to_be_bytes();
+    let nb = (-d).to_be_bytes();
+    b[..24].iter().all(|&x| x == 0) || nb[..24].iter().all(|&x| x == 0)
+}
+
+/// The freshness invariant over everything produced so far. Returns violations as (signature class, description).
+pub fn invariant(o: &Obs) -> Vec<(String, String)> {
+    let mut v = Vec::new();
+    for e in &o.errors { v.push(("generation-failed".to_string(), e.clone())); }
+    for (l, s) in &o.scalars {
+        if *s == [0u8; 32] { v.push(("zero-scalar".into(), format!("{} is zero", l))); }
+        else if !be_gt_2_128(s) { v.push(("low-entropy-scalar".into(), format!("{} = {} is below 2^128", l, hex::encode(s)))); }
+    }
+    let sc_: Vec<Scalar> = o.scalars.iter().map(|x| sc(&x.1)).collect();
+    for i in 0..sc_.len() { for j in (i + 1)..sc_.len() {
+        let d = sc_[i] - sc_[j];
+        if d == Scalar::ZERO { v.push(("repeated-scalar".into(), format!("{} == {}", o.scalars[i].0, o.scalars[j].0))); }
+        else if small_mod_r(&d) { v.push(("related-scalars".into(), format!("{} and {} differ by less than 2^64", o.scalars[i].0, o.scalars[j].0))); }
+    } }
+    for i in 0..o.points.len() { for j in (i + 1)..o.points.len() {
+        if o.points[i].1 == o.points[j].1 { v.push(("repeated-point".into(), format!("{} == {}", o.points[i].0, o.points[j].0))); }
+    } }
+    for (l, bytes, wins) in &o.windows {
+        for (wl, w) in wins { if w.len() <= bytes.len() && bytes.windows(w.len()).any(|x| x == &w[..]) { v.push(("secret-in-encoding".into(), format!("{} contains {}", l, wl))); } }
+    }
+    // two-transcript extraction
+    for i in 0..o.transcripts.len() { for j in (i + 1)..o.transcripts.len() {
+        let (a, b) = (&o.transcripts[i], &o.transcripts[j]);
+        if a.0 != b.0 { continue; }
+        let dc = sc(&a.1) - sc(&b.1);
+        let inv = match Option::<Scalar>::from(dc.invert()) { Some(x) => x, None => { v.push(("repeated-challenge".into(), format!("two transcripts for {} share the challenge", a.0))); continue; } };
+        for (sa, sb) in a.2.iter().zip(b.2.iter()) {
+            if sa.0 != sb.0 { continue; }
+            let x = (sc(&sa.1) - sc(&sb.1)) * inv;
+            if x == sc(&sa.2) || x == -sc(&sa.2) { v.push(("two-transcript-extraction".into(), format!("(resp - resp')/(c - c') recovers secret '{}' of {}", sa.0, a.0))); }
+        }
+    } }
+    v
+}
+
+const PLACEMENTS: [&str; 4] = ["same-thread", "fresh-thread-per-op", "two-concurrent-threads", "reused-thread"];
+
+fn run_history(s: Suite, hist: &[usize], placement: usize, mut on_state: impl FnMut(&Obs, usize)) {
+    let mut all = Obs::default();
+    match placement {
+        0 => for (i, &op) in hist.iter().enumerate() { merge(&mut all, run_op(s, op, &format!("#{}:{}", i, OPS[op]))); on_state(&all, i); },
+        1 => for (i, &op) in hist.iter().enumerate() {
+            let o = std::thread::spawn(move || run_op(s, op, &format!("#{}:{}", i, OPS[op]))).join().unwrap();
+            merge(&mut all, o); on_state(&all, i);
+        },
+        2 => {
+            // two fresh threads started from a barrier; ops alternate between them. State is judged after all ops.
+            let bar = Arc::new(Barrier::new(2));
+            let parts: Vec<Vec<(usize, usize)>> = vec![hist.iter().copied().enumerate().filter(|(i, _)| i % 2 == 0).collect(), hist.iter().copied().enumerate().filter(|(i, _)| i % 2 == 1).collect()];
+            let hs: Vec<_> = parts.into_iter().map(|p| { let bar = bar.clone(); std::thread::spawn(move || { bar.wait(); let mut o = Obs::default(); for (i, op) in p { merge(&mut o, run_op(s, op, &format!("#{}:{}", i, OPS[op]))); } o }) }).collect();
+            for h in hs { merge(&mut all, h.join().unwrap()); }
+            on_state(&all, hist.len() - 1);
+        }
+        _ => {
+            // a long-lived thread that has generated before (its thread-local RNG is initialised and advanced)
+            let hist = hist.to_vec();
+            let o = std::thread::spawn(move || {
+                let mut acc = Vec::new();
+                let warm = run_op(s, 5, "warm-up:BlindFactor::random");
+                acc.push(warm);
+                for (i, &op) in hist.iter().enumerate() { acc.push(run_op(s, op, &format!("#{}:{}", i, OPS[op]))); }
+                acc
+            }).join().unwrap();
+            for (i, x) in o.into_iter().enumerate() { merge(&mut all, x); if i > 0 { on_state(&all, i - 1); } }
+        }
+    }
+}
+
+fn obs_json(o: &Obs) -> Value {
+    json!({"scalars": o.scalars.iter().map(|x| (x.0.clone(), hex::encode(x.1))).collect::<Vec<_>>(), "points": o.points.iter().map(|x| (x.0.clone(), hex::encode(&x.1))).collect::<Vec<_>>(), "errors": o.errors})
+}
+
+/// child process entry: `zkmc c07-child <suite> <op,op,...>` prints the observed values as JSON on the real stdout
+pub fn child_main(args: &[String], out: &mccore::Out) {
+    let s = if args.get(0).map(|x| x.as_str()) == Some("shake256") { Suite::Shake256 } else { Suite::Sha256 };
+    let hist: Vec<usize> = args.get(1).map(|x| x.split(',').filter_map(|t| t.parse().ok()).collect()).unwrap_or_default();
+    let mut all = Obs::default();
+    for (i, &op) in hist.iter().enumerate() { merge(&mut all, run_op(s, op, &format!("#{}:{}", i, OPS[op]))); }
+    out.line(&obs_json(&all).to_string());
+}
+
+pub fn run(env: &Env) {
+    env.ctx.set_rule("alphabet of 8 generating operations on identical fixed inputs (proof_gen D=none, proof_gen D=all, blind_proof_gen, commit M=0, commit M=2, BlindFactor::random, KeyPair::random, generate_random_secret); ALL histories of length <= 3 (584) x 4 thread placements (same thread; fresh OS thread per op; two concurrent threads from a barrier; a reused thread that generated before) x 2 suites, the freshness invariant evaluated after every operation over everything produced so far; each single op repeated 64 times; the same histories in two child processes (cross-process). Invariant: all witness-recomputed blinding scalars, responses, challenges, secrets non-zero, >= 2^128, pairwise distinct and pairwise more than 2^64 apart mod r; all points pairwise distinct; no two-transcript extraction of e / hidden messages / blinding factor; no 32/48-octet window of an encoding equals a hidden scalar, e, or A. State = (suite, placement, history prefix); non-trivial = at least one production-randomness artefact was produced and judged.");
+    env.ctx.assume("independence/unpredictability of the CSPRNG itself is not decidable by bounded exploration; the check decides absence of reuse, of low-entropy and of small-difference relations within the explored histories, threads and two processes");
+    let seed = env.ctx.seed;
+    let _ = seed;
+    let maxlen = 3;
+    let mut hists: Vec<Vec<usize>> = Vec::new();
+    for len in 1..=maxlen { hists.extend(tuples(OPS.len(), len)); }
+    struct Root { id: String, suite: Suite, hist: Vec<usize>, placement: usize, kind: u8 }
+    let mut roots = Vec::new();
+    for s in suites() {
+        for h in &hists { for p in 0..4 {
+            if !env.thorough() && s == Suite::Shake256 && h.len() == 3 && p != 1 { continue; } // quick: second suite takes length-3 histories on fresh threads only
+            roots.push(Root { id: format!("{}/{}/{:?}", s.name(), PLACEMENTS[p], h), suite: s, hist: h.clone(), placement: p, kind: 0 });
+        } }
+        for op in 0..OPS.len() { roots.push(Root { id: format!("{}/repeat64/{}", s.name(), OPS[op]), suite: s, hist: vec![op; if env.thorough() { 256 } else { 64 }], placement: 0, kind: 1 }); }
+        let mut xp: Vec<Vec<usize>> = (0..OPS.len()).map(|o| vec![o]).collect();
+        xp.extend([vec![0, 4, 5], vec![6, 7, 2], vec![5, 5, 5], vec![3, 1, 6]]);
+        if env.thorough() { xp.extend(tuples(OPS.len(), 2)); }
+        for h in xp { roots.push(Root { id: format!("{}/cross-process/{:?}", s.name(), h), suite: s, hist: h, placement: 0, kind: 2 }); }
+    }
+    par_for(&roots, |_, r| {
+        if !env.want(&r.id) || env.ctx.out_of_time() { return; }
+        let names: Vec<&str> = r.hist.iter().map(|&o| OPS[o]).collect();
+        if r.kind == 2 {
+            // cross-process: same history in two children
+            let exe = std::env::current_exe().unwrap();
+            let arg: String = r.hist.iter().map(|x| x.to_string()).collect::<Vec<_>>().join(",");
+            let mut all = Obs::default();
+            for child in 0..2 {
+                let outp = std::process::Command::new(&exe).args(["c07-child", r.suite.name(), &arg]).output();
+                env.ctx.steps(r.hist.len() as u64);
+                let v: Option<Value> = outp.ok().and_then(|o| serde_json::from_slice(&o.stdout).ok());
+                match v {
+                    Some(v) => {
+                        for x in v["scalars"].as_array().cloned().unwrap_or_default() { let b: [u8; 32] = hex::decode(x[1].as_str().unwrap()).unwrap().try_into().unwrap(); all.scalars.push((format!("process{}:{}", child, x[0].as_str().unwrap()), b)); }
+                        for x in v["points"].as_array().cloned().unwrap_or_default() { all.points.push((format!("process{}:{}", child, x[0].as_str().unwrap()), hex::decode(x[1].as_str().unwrap()).unwrap())); }
+                        for x in v["errors"].as_array().cloned().unwrap_or_default() { all.errors.push(x.as_str().unwrap_or("").to_string()); }
+                    }
+                    None => { env.machinery(&format!("c07 child process failed for {}", r.id)); return; }
+                }
+            }
+            env.ctx.state(&[r.id.as_bytes()]);
+            for (cls, what) in invariant(&all) { env.ctx.violation(&format!("C07:cross-process:{}", cls), &what, env.case(&r.id, json!({"history": names, "placement": "two child processes"}))); }
+            env.ctx.class("cross-process");
+            env.ctx.trace();
+            return;
+        }
+        run_history(r.suite, &r.hist, r.placement, |obs, i| {
+            env.ctx.step();
+            if r.kind == 1 && i + 1 != r.hist.len() && (i + 1) % 16 != 0 { return; } // repetition runs: judge every 16th state and the last
+            env.ctx.state(&[r.id.as_bytes(), &(i as u32).to_be_bytes()]);
+            for (cls, what) in invariant(obs) {
+                env.ctx.violation(&format!("C07:{}:{}", if r.kind == 1 { "repeat" } else { PLACEMENTS[r.placement] }, cls), &what, env.case(&r.id, json!({"history": names, "placement": PLACEMENTS[r.placement], "judged_after_op": i})));
+            }
+        });
+        env.ctx.class(&format!("{}:len{}", if r.kind == 1 { "repeat" } else { PLACEMENTS[r.placement] }, r.hist.len().min(4)));
+        env.ctx.trace();
+        if r.hist.len() == 3 && r.hist[0] == 0 && r.hist[1] == 4 && r.hist[2] == 6 { env.ctx.sample(json!({"root": r.id, "history": names, "placement": PLACEMENTS[r.placement]})); }
+    });
+}
